@@ -53,6 +53,11 @@ def run(repo, rep):
     rule_order(repo, rep)
     rep.clause("C14-g", "no ambient input: the clock is only printed, file-system state beyond the named inputs only guards errors")
     rule_ambient_inputs(repo, rep)
+    rep.clause("C14-h", "the configuration word of the driver header is built afresh for every payload (no register image kept at module level) [rule shared with C17-d]; no function rebinds a module-level counter (`global x` with a store): names and ids derived from it depend on earlier compilations")
+    from . import c17 as _c17h
+
+    rep.run_borrowed(_c17h, {"C17-d": "C14-h"}, repo)
+    rule_global_rebinding(repo, rep)
     rule_singletons(repo, rep)
     rule_shared_tables(repo, rep)
     rule_interpreter_settings(repo, rep)
@@ -733,3 +738,25 @@ def m_parent_stmt_(m, node):
     while cur is not None and not isinstance(cur, ast.stmt):
         cur = m.parents.get(cur)
     return cur if cur is not None else node
+
+
+_GLOBAL_REBIND_OK = {
+    # (module, function, name): reviewed reason
+}
+
+
+def rule_global_rebinding(repo, rep):
+    n = 0
+    for m in repo.core_modules():
+        for q, fn in m.functions.items():
+            for st in walk_no_nested(fn):
+                if isinstance(st, ast.Global):
+                    for nm in st.names:
+                        n += 1
+                        stores = [x for x in ast.walk(fn) if isinstance(x, ast.Name) and x.id == nm and isinstance(x.ctx, ast.Store)]
+                        if (m.name, q, nm) in _GLOBAL_REBIND_OK:
+                            rep.ok("C14-h", f"ethosu/vela/{m.name}.py:{q}", f"global {nm}", "reviewed: " + _GLOBAL_REBIND_OK[(m.name, q, nm)])
+                            continue
+                        rep.check(not stores, "C14-h", f"ethosu/vela/{m.name}.py:{q}", f"`global {nm}` is not re-bound by the function",
+                                  f"`{nm}` is module-level state that {q} updates: what is derived from it (subgraph names `<sg>_split_<n>`, hence tensor names and their order in the output) depends on the compilations that ran before in the process")
+    rep.ok("C14-h", "ethosu/vela", f"{n} global declarations in functions", "")
